@@ -16,6 +16,7 @@ Decided:
          arguments, make_middleware_chain); a slot function whose first parameter is not ``next`` is a
          TypeError; check_middleware runs for every middleware at application and at route level;
   R04.e  next/context placement: R01.b / R01.d.
+  (R04.a/c/d/e also: building the message of the NameError / TypeError cannot itself raise -- chain.check_raise_total.)
 Declined: nothing of substance (Python raising NameError/TypeError is assumed).
 """
 import ast
